@@ -113,8 +113,13 @@ pub fn compare_graph(g: &Graph, a: &AutomatonDump, what: &str) -> Result<(), Str
 fn gen_mode_name(rng: &mut Rng, hostile: bool, used: &[String]) -> String {
     loop {
         let base: String = if hostile {
-            let pieces = ["we \"ird", "back\\slash", "sp ace", "ü", "名", "q\"", "a'b", "new\nline", "tab\t", "{}", "semi;", "=x"];
-            format!("{}{}", pieces[rng.below(pieces.len())], rng.below(100))
+            let pieces = ["we \"ird", "back\\slash", "sp ace", "ü", "名", "q\"", "a'b", "new\nline", "tab\t", "{}", "semi;", "=x", "bs\\\"q", "\\", "end\\", "\\\\\"", "<b>", "a|b", "\\n", "\\l", "\\N"];
+            // the number in front now and then, so that the name ends in the special character
+            if rng.chance(1, 3) {
+                format!("{}{}", rng.below(100), pieces[rng.below(pieces.len())])
+            } else {
+                format!("{}{}", pieces[rng.below(pieces.len())], rng.below(100))
+            }
         } else {
             // identifier-like, now and then with a dot or a dash (file names are derived from it)
             let letters = ['A', 'B', 'x', 'y', '_', '0', '7', 'Q', '.', '-'];
